@@ -147,6 +147,7 @@ def run(prog, rep):
     csvscan.check(prog, rep, 'R9.7')
     check_lookahead_fresh(prog, rep)
     check_scanner_reads(prog, rep, 'R9.9')
+    check_writer_separators(prog, rep, 'R9.11')
 
     # ---------------------------------------------------------------- R9.3
     for cls in ('CCsvStringReader', 'CCsvStreamReader'):
@@ -947,6 +948,32 @@ def writer_value_effects(prog, cls):
                     sigs.add((o, calls, effects_of(pth, init, names)))
                 res[(ri, v, withhdr)] = sigs
     return res
+
+
+def check_writer_separators(prog, rep, rule):
+    """RFC 4180 2.4: a line of n fields holds n - 1 separators. WriteValue of both writers over (row index, fields already in the line, header flag):
+    on every abstract path one separator is put in front of a field iff the line already holds a field - in the row line and, in the first row with
+    a header, in the header line too (an empty name is a field like any other)."""
+    rep.rule(rule, 'WriteValue of both CSV writers: over (row index, fields already in the line, header flag) every path puts exactly one separator in '
+                   'front of a field iff the line already holds a field, in the header line as in the row line (an empty name or value counts)', floor=16)
+    for cls in ('CCsvStringWriter', 'CCsvStreamWriter'):
+        eff = writer_value_effects(prog, cls)
+        f = _method(prog, cls, 'WriteValue', many=True)[0]
+        rep.touch(f)
+        for (ri, v, withhdr), sigs in sorted(eff.items()):
+            lines = 2 if (ri == 0 and withhdr) else 1
+            want_sep, want_val = (lines if v else 0), lines
+            site = '%s::WriteValue|row %d, %d field(s) in the line, header %s' % (cls, ri, v, 'on' if withhdr else 'off')
+            bad = [sg for sg in sigs if sg[0] == 'return' and (sum(1 for c in sg[1] if c == 'push_back') != want_sep
+                                                                 or sum(1 for c in sg[1] if c == 'WriteEscapedValue') != want_val)]
+            if not sigs:
+                raise AnalysisBroken('%s: no abstract path through %s' % (rule, site))
+            if bad:
+                rep.finding(rule, site, f.loc(), '%s: a path writes %d separator(s) and %d field(s) (calls %s); %d separator(s) and %d field(s) are required - '
+                            'the header / row gets a different number of fields than its siblings' % (site, sum(1 for c in bad[0][1] if c == 'push_back'),
+                            sum(1 for c in bad[0][1] if c == 'WriteEscapedValue'), list(bad[0][1]), want_sep, want_val), func=f.id)
+            else:
+                rep.ok(rule, site, sample={'writer': cls, 'cell': [ri, v, withhdr], 'separators': want_sep, 'fields': want_val, 'paths': len(sigs)})
 
 
 def check_reader_width(prog, rep, cls):
